@@ -4,3 +4,4 @@ pub mod sys;
 pub mod rt;
 pub mod watch;
 pub mod sio;
+pub mod sstream;
